@@ -126,6 +126,8 @@ def check(model, rep, tier):
             'in place on the default path (they are shared with every other '
             'analysis)', {'inplace': inplace}, line=vn.node.lineno)
 
+  rules_df.check_loop_target_kill(model, rep, 'LV-TRANSFER')
+
   # ---------------------------------------------------------------- LV-CLOSURE
   ex = [a for a in live_in.f.atoms if a.startswith('EXISTS[') and 'DEFINED_FNS_IN' in a]
   lam = [a for a in live_in.f.atoms if 'lamba_check' in a or 'Lambda' in a]
@@ -167,13 +169,51 @@ def check(model, rep, tier):
                            'is forgotten')
   rules_df.check_change_flag(rep, 'LV-CLOSURE', rvn, 'out')
   rp = rvn.params()[0]
-  ok = False
-  for i in ast.walk(rvn.node):
-    if isinstance(i, ast.If) and core.norm(i.test) in (
-        'isinstance(%s.ast_node, (ast.Lambda, ast.FunctionDef))' % rp,
-        'isinstance(%s.ast_node, (ast.FunctionDef, ast.Lambda))' % rp):
-      ok = any(pat.match('_O_ += %s.ast_node' % rp, x) for x in i.body)
-  ok = ok and pat.has(rvn.node, '_I_ = _NodeState(self.external_defs)')
+  # path-wise (sa/pathsym): the state stored into self.out[node] is <state in> +
+  # node.ast_node on every path where the node is a def / lambda, and the state
+  # in is _NodeState(self.external_defs) at the graph entry
+  from sa import pathsym as _ps
+  stores_ = [a for a in ast.walk(rvn.node) if isinstance(a, ast.Assign) and core.norm(
+      a.targets[0]) == 'self.out[%s]' % rp]
+  ok = len(stores_) == 1
+  fn_kinds, entry_ok = set(), False
+
+  def _fn_test(t):
+    """kinds named by isinstance(node.ast_node, K) tests (one tuple or an `or`)"""
+    ks = set()
+    for x in (t.values if isinstance(t, ast.BoolOp) and isinstance(t.op, ast.Or) else [t]):
+      if isinstance(x, ast.Call) and core.dotted(x.func) == 'isinstance' and len(
+          x.args) == 2 and core.norm(x.args[0]) == rp + '.ast_node':
+        ks |= {core.dotted(k).split('.')[-1] for k in (
+            x.args[1].elts if isinstance(x.args[1], ast.Tuple) else [x.args[1]])}
+      else:
+        return None
+    return ks
+
+  def _leaves(v, conds):
+    if isinstance(v, ast.IfExp):
+      yield from _leaves(v.body, conds + [('T', v.test)])
+      yield from _leaves(v.orelse, conds + [('F', v.test)])
+    else:
+      yield conds, v
+  if ok:
+    for conds0, val0 in _ps.path_values(rvn.node, stores_[0], stores_[0].value):
+      for conds, val in _leaves(val0, list(conds0)):
+        kinds_t = set()
+        for pol, t in conds:
+          ks = _fn_test(t)
+          if ks is not None and pol == 'T':
+            kinds_t |= ks
+        txt = core.norm(val)
+        if kinds_t:
+          fn_kinds |= kinds_t
+          if not (isinstance(val, ast.BinOp) and isinstance(val.op, ast.Add) and
+                  core.norm(val.right) == rp + '.ast_node'):
+            ok = False
+        if any(pol == 'T' and core.norm(t) == '%s is self.graph.entry' % rp
+               for pol, t in conds) and '_NodeState(self.external_defs)' in txt:
+          entry_ok = True
+  ok = ok and fn_kinds == {'Lambda', 'FunctionDef'} and entry_ok
   rep.check(ok, 'LV-CLOSURE', '%s:gen-function-nodes' % rvn.site,
             'every def / lambda node must add itself to the definitions flowing '
             'out; the entry starts from the enclosing function\'s definitions',
